@@ -109,7 +109,7 @@ latest read/force returns the same value, however the clock got back to that tim
 number may arrive as a different object) — unless a pop or an assignment replaced the cache. -/
 def checkSameTime (dynTD : Bool) (st : SpecSt) (i : Nat) (e : OEv) : SpecSt :=
   if !dynTD then st else
-  if e.tag.startsWith "pop:" || e.tag == "assign" then { st with lastByGen := [] } else
+  if e.tag.startsWith "pop:" || e.tag.startsWith "assign" then { st with lastByGen := [] } else
   if !(isRead e.tag || isForce e.tag) then st else
   match e.touched, e.res with
   | some t, .ok v =>
@@ -181,7 +181,7 @@ def instOf (tag : String) : String := (tag.splitOn ":").getD 1 ""
 
 /-- `state_pop_restores_cache` -/
 def checkPushPop (st : SpecSt) (i : Nat) (e : OEv) : SpecSt :=
-  if e.tag == "assign" || e.tag == "newInst" then
+  if e.tag.startsWith "assign" || e.tag == "newInst" then
     { st with frames := st.frames.map fun f => { f with dirty := true } }
   else if e.tag.startsWith "push:" then
     { st with frames := { inst := instOf e.tag, caches := e.caches, gens := e.gens, dirty := false } :: st.frames }
